@@ -20,7 +20,7 @@ P = 'C01'
 @contract('bitcoin.core.serialize:ser_read', name='d_read', prop=P)
 def d_read(f: Stream, n: Int, *, src: Bytes) -> Bytes:
     """reading n bytes from a stream whose remainder is a prefix of src"""
-    requires(0 <= n and n <= MAX_SIZE and n <= len(src))
+    requires(0 <= n and n <= MAX_SIZE)
     requires(is_prefix(rest(f), src))
     option(callable=True, modifies=['f'])
     raises(SerializationTruncationError, when=len(rest(f)) < n)
@@ -169,3 +169,82 @@ def d_wstack(cls: Const(CScriptWitness), f: Stream, *, w: Obj(CScriptWitness), t
     raises(SerializationTruncationError, when=len(rest(f)) < len(enc_wstack(w)))
     ensures(eq_items(result.stack, w.stack) and is_prefix(rest(f), tail) and sdata(f) == old(sdata(f))
             and len(rest(f)) == old(len(rest(f))) - len(enc_wstack(w)))
+
+
+@contract('bitcoin.core:CTxInWitness.stream_deserialize', name='d_txinwit', prop=P)
+def d_txinwit(cls: Const(CTxInWitness), f: Stream, *, w: Obj(CTxInWitness), tail: Bytes) -> Obj(CTxInWitness):
+    requires(dec_wstack(w.scriptWitness))
+    requires(is_prefix(rest(f), enc_wstack(w.scriptWitness) + tail))
+    option(callable=True, modifies=['f'])
+    ghost('d_wstack', w=w.scriptWitness, tail=tail)
+    raises(SerializationTruncationError, when=len(rest(f)) < len(enc_wstack(w.scriptWitness)))
+    ensures(eq_items(result.scriptWitness.stack, w.scriptWitness.stack) and is_prefix(rest(f), tail)
+            and sdata(f) == old(sdata(f))
+            and len(rest(f)) == old(len(rest(f))) - len(enc_wstack(w.scriptWitness)))
+
+
+@contract('bitcoin.core:CTxWitness.stream_deserialize', name='d_wits', prop=P)
+def d_wits(self: Obj(CTxWitness), f: Stream, *, ws: TupleOf(Obj(CTxInWitness)), tail: Bytes) -> Obj(CTxWitness):
+    """reads one witness stack per entry of self.vtxinwit (the placeholder built from len(vin))"""
+    requires(len(self.vtxinwit) == len(ws) and dec_wits(ws))
+    unfold(dec_wits(ws))
+    requires(is_prefix(rest(f), enc_wits(ws) + tail))
+    use(split_wits(ws, 0))
+    unfold(enc_wits(ws[:0]))
+    option(callable=True, modifies=['f'], auto_unfold=False)
+    ghost('d_txinwit', w=ws[_k], tail=enc_wits_from(ws, _k + 1) + tail)
+    loopvar('c0', '_acc', ListOf(Obj(CTxInWitness)))
+    hint('c0', 'body', unfold(enc_wits_from(ws, _k)))
+    hint('c0', 'head', unfold(enc_wits(ws[:_k + 1])))
+    hint('c0', 'head', use(split_wits(ws, _k)))
+    invariant('c0', len(_acc) == _k and sdata(f) == old(sdata(f))
+              and is_prefix(rest(f), enc_wits_from(ws, _k) + tail)
+              and old(len(rest(f))) - len(rest(f)) == len(enc_wits(ws[:_k]))
+              and forall(range(0, _k), lambda j: eq_items(_acc[j].scriptWitness.stack, ws[j].scriptWitness.stack)))
+    hint('c0', 'exit', unfold(enc_wits_from(ws, _k)))
+    hint('post', 'post', unfold(eq_wits(result.vtxinwit, ws)))
+    raises(SerializationTruncationError, when=len(rest(f)) < len(enc_wits(ws)))
+    ensures(eq_wits(result.vtxinwit, ws) and is_prefix(rest(f), tail) and sdata(f) == old(sdata(f))
+            and len(rest(f)) == old(len(rest(f))) - len(enc_wits(ws)))
+
+
+
+# ------------------------------------------------------------------ top level: Serializable.deserialize (T3-T6)
+@contract('bitcoin.core.serialize:Serializable.deserialize', name='txin_deserialize', prop=P)
+def txin_deserialize(cls: OneOf(CTxIn, CMutableTxIn), buf: Bytes, allow_padding: Bool, *,
+                     i: Obj(CTxIn), extra: Bytes):
+    """complete encoding (+ extra bytes): same field values, or the extra-data error carrying object and surplus"""
+    requires(dec_txin(i))
+    requires(buf == enc_txin(i) + extra)
+    ghost('d_txin', i=i, tail=extra)
+    raises(DeserializationExtraDataError, when=(not allow_padding) and len(extra) > 0,
+           ensures=eq_txin(exc.obj, i) and exc.padding == extra)
+    ensures(eq_txin(result, i) and typeis(result, cls))
+
+
+@contract('bitcoin.core.serialize:Serializable.deserialize', name='txin_deserialize_trunc', prop=P)
+def txin_deserialize_trunc(cls: OneOf(CTxIn, CMutableTxIn), buf: Bytes, allow_padding: Bool, *, i: Obj(CTxIn)):
+    """every strict prefix raises the truncation error and nothing else"""
+    requires(dec_txin(i))
+    requires(strict_prefix(buf, enc_txin(i)))
+    ghost('d_txin', i=i, tail=b'')
+    raises(SerializationTruncationError, when=True)
+
+
+@contract('bitcoin.core.serialize:Serializable.deserialize', name='txout_deserialize', prop=P)
+def txout_deserialize(cls: OneOf(CTxOut, CMutableTxOut), buf: Bytes, allow_padding: Bool, *,
+                      o: Obj(CTxOut), extra: Bytes):
+    requires(dec_txout(o))
+    requires(buf == enc_txout(o) + extra)
+    ghost('d_txout', o=o, tail=extra)
+    raises(DeserializationExtraDataError, when=(not allow_padding) and len(extra) > 0,
+           ensures=eq_txout(exc.obj, o) and exc.padding == extra)
+    ensures(eq_txout(result, o) and typeis(result, cls))
+
+
+@contract('bitcoin.core.serialize:Serializable.deserialize', name='txout_deserialize_trunc', prop=P)
+def txout_deserialize_trunc(cls: OneOf(CTxOut, CMutableTxOut), buf: Bytes, allow_padding: Bool, *, o: Obj(CTxOut)):
+    requires(dec_txout(o))
+    requires(strict_prefix(buf, enc_txout(o)))
+    ghost('d_txout', o=o, tail=b'')
+    raises(SerializationTruncationError, when=True)
